@@ -380,4 +380,101 @@ mod proofs {
         if which { m.set_nodes_vars(k, Vector::create(vec![any_w(), any_w()])); } else { let _ = m.get_nodes_vars(k); }
         returned_instead_of_rejecting();
     }
+
+    // ---- operand SIZE mismatches (sizes symbolic in 0..6) for the vector-taking entry points of the matrix types ----
+
+    /// Matrix::multiply / set_row / set_col / solve_basic / solve_lu with a vector of any wrong size
+    #[kani::proof]
+    #[kani::unwind(8)]
+    #[kani::should_panic]
+    fn c20_matrix_vector_size_rejected() {
+        let mut m = any_matrix(2, 3);
+        let v = any_vector_upto6();
+        let which: u8 = kani::any();
+        kani::assume(which < 5);
+        match which {
+            0 => { kani::assume(v.size() != 3); let _ = m.multiply(&v); }
+            1 => { kani::assume(v.size() != 3); m.set_row(0, v); }
+            2 => { kani::assume(v.size() != 2); m.set_col(0, v); }
+            3 => { let mut sq = any_matrix(2, 2); kani::assume(v.size() != 2); let _ = sq.solve_basic(&v); }
+            _ => { let mut sq = any_matrix(2, 2); kani::assume(v.size() != 2); let _ = sq.solve_lu(&v); }
+        }
+        returned_instead_of_rejecting();
+    }
+
+    /// Banded * vector and Banded::solve with a vector of any wrong size
+    #[kani::proof]
+    #[kani::unwind(18)]
+    #[kani::should_panic]
+    fn c20_banded_vector_size_rejected() {
+        let b = Banded::<W>::new(3, 1, 1, any_w());
+        let v = any_vector_upto6();
+        kani::assume(v.size() != 3);
+        let which: bool = kani::any();
+        if which { let _ = &b * &v; } else { let _ = b.solve(&v); }
+        returned_instead_of_rejecting();
+    }
+
+    /// Tridiagonal: wrong operand size for * and solve; wrong diagonal lengths for the constructors
+    #[kani::proof]
+    #[kani::unwind(8)]
+    #[kani::should_panic]
+    fn c20_tridiagonal_size_rejected() {
+        let which: u8 = kani::any();
+        kani::assume(which < 3);
+        if which < 2 {
+            let t = Tridiagonal::with_vecs(vec![any_w(); 2], vec![any_w(); 3], vec![any_w(); 2]);
+            let v = any_vector_upto6();
+            kani::assume(v.size() != 3);
+            if which == 0 { let _ = &t * &v; } else { let _ = t.solve(&v); }
+        } else {
+            let (l, d, u) = (any_vector_upto6(), any_vector_upto6(), any_vector_upto6());
+            kani::assume(d.size() >= 1 && (l.size() != d.size() - 1 || u.size() != d.size() - 1));
+            let _ = Tridiagonal::with_vectors(l, d, u);
+        }
+        returned_instead_of_rejecting();
+    }
+
+    /// Sparse products with a vector of any wrong size
+    #[kani::proof]
+    #[kani::unwind(8)]
+    #[kani::should_panic]
+    fn c20_sparse_vector_size_rejected() {
+        let s = Sparse::from_vecs(2, 3, vec![any_w(), any_w()], vec![0, 1], vec![0, 1, 1, 2]);
+        let v = any_vector_upto6();
+        let which: bool = kani::any();
+        if which { kani::assume(v.size() != 3); let _ = s.multiply(&v); } else { kani::assume(v.size() != 2); let _ = s.transpose_multiply(&v); }
+        returned_instead_of_rejecting();
+    }
+
+    /// Mesh node writes with a variable vector of any wrong length
+    #[kani::proof]
+    #[kani::unwind(8)]
+    #[kani::should_panic]
+    fn c20_mesh_nvars_rejected() {
+        let v = any_vector_upto6();
+        kani::assume(v.size() != 2);
+        let which: bool = kani::any();
+        if which {
+            let mut m = Mesh1D::<W, W>::new(Vector::create(vec![W(0), W(1), W(2)]), 2);
+            m.set_nodes_vars(1, v);
+        } else {
+            let mut m = Mesh2D::<W>::new(Vector::create(vec![0.0, 1.0]), Vector::create(vec![0.0, 0.5, 2.0]), 2);
+            m.set_nodes_vars(1, 2, v);
+        }
+        returned_instead_of_rejecting();
+    }
+
+    /// matching sizes: Matrix::multiply equals the row dot products for a vector of the right size
+    #[kani::proof]
+    #[kani::unwind(8)]
+    fn c03_matrix_multiply_2x3() {
+        let m = any_matrix(2, 3);
+        let v = vec_of(3);
+        let r = m.multiply(&v);
+        assert!(r.size() == 2);
+        let i: usize = kani::any();
+        kani::assume(i < 2);
+        assert!(r[i] == m[(i, 0)] * v[0] + m[(i, 1)] * v[1] + m[(i, 2)] * v[2]);
+    }
 }
